@@ -127,8 +127,9 @@ Definition is_vt (o : option exc) : bool :=
    or conversion before it -- in every function that validates one, and the eight _setup_* families
    (1-D and 2-D) do validate their weights. *)
 Definition forwarded_arg : string := "method_kws[key]".
-Definition is_pad (a : aevent) : bool := match a with APad => true | _ => false end.
-(* forwarded keyword arrays (optimize_extended_range): only padded, at least once, never used otherwise *)
+Definition is_pad (a : aevent) : bool := match a with APad | AValidate => true | AUse => false end.
+(* forwarded keyword arrays (optimize_extended_range): only padded by np.pad(..., 'constant') -- directly or
+   after a length validation --, at least once, never used otherwise *)
 Definition forwarded_ok (e : aentry) : bool :=
   match a_events e with [] => false | l => forallb is_pad l end.
 Definition aentry_ok (e : aentry) : bool :=
@@ -162,7 +163,7 @@ Definition finite_required : list (bool * string * nat) :=
    (true, "_setup_whittaker", 1%nat); (true, "_setup_polynomial", 1%nat); (true, "_setup_spline", 1%nat);
    (true, "_setup_classification", 1%nat)]%string.
 Definition finite_routing_ok (t : list centry) : bool :=
-  forallb c_forwarded t
+  forallb (fun e => c_forwarded e || c_prevalidation e) t
   && forallb (fun r => let '(td, fn, n) := r in Nat.leb n (count_sites td fn t)) finite_required.
 
 (* ---- every call site of _check_half_window with the flags it is called with: the documented contract of
